@@ -130,7 +130,8 @@ prop("C13", engine="inh", worker="make_inh_trace", prefixes=["C13."], level="mod
      jobs=lambda tier: [("delete", dict()), ("inherit", dict()),
                         ("dyn-delete", dict(_worker="make_dyn_trace"))],
      quick=dict(traces=192, nops=25), thorough=dict(traces=4800, nops=40),
-     also=["C07.HandleDeadOrCurrent"])
+     # "no value computed from the deleted object survives": stale values count
+     also=["C07.HandleDeadOrCurrent", "C02.NoStale"])
 
 
 prop("C04", engine="inh", worker="make_c04_trace", prefixes=["C04."], level="model_checking",
